@@ -15,8 +15,18 @@ def contract(key, **kw):
     return CONTRACTS[key]
 
 
+def tree_reads():
+    """every attribute of the parse / instantiated tree nodes, and the list heap: `reads='tree'`"""
+    from contracts.schema import TREE_SCHEMA
+    skip = ('MatlabWrapper', 'PybindWrapper', 'XMLDocParser')
+    return tuple(sorted({a for c, fields in TREE_SCHEMA.items() if c not in skip for a in fields}) + ['SEQ'])
+
+
 def spec(rec=False, ret='any', reads=(), fuel=1):
     """decorator: a pure specification function, executable natively and translated by pyvc"""
+    if reads == 'tree':
+        reads = tree_reads()
+
     def deco(fn):
         src = inspect.getsource(fn)
         import textwrap
